@@ -31,7 +31,15 @@ impl Certificate {
 
     /// Constructs a new `Certificate` from DER-encoded binary data.
     pub fn from_der(der: Vec<u8>) -> Result<Self, InvalidCertificate> {
-        X509Certificate::from_der(&der).map_err(|error| InvalidCertificate(error.to_string()))?;
+        let (remainder, _) = X509Certificate::from_der(&der)
+            .map_err(|error| InvalidCertificate(error.to_string()))?;
+
+        if !remainder.is_empty() {
+            return Err(InvalidCertificate(
+                "trailing data after certificate".to_string(),
+            ));
+        }
+
         Ok(Self(CertificateDer::from(der)))
     }
 
